@@ -49,6 +49,9 @@ type sim struct {
 	faucet bool
 	mint0  uint64
 	halv   uint64
+
+	capSubsidy bool // open finding KF-C04-percentage-overflow
+	onExclude  func(string)
 }
 
 func (s *sim) name(a []byte) string {
@@ -203,6 +206,14 @@ func (s *sim) genSubsidy(w *cs.World) *cs.PlannedTx {
 	from := s.payer()
 	fee := w.Params.Fee.SubsidyFee
 	amt, cl := s.amount(cs.Addr(from), fee)
+	if s.capSubsidy && amt > 1_000_000_000_000_000 {
+		// open finding KF-C04-percentage-overflow: rewards compounded out of a pool above ~1.8e17 push a stake over the
+		// point where lib.Uint64PercentageDiv wraps
+		amt, cl = 1_000_000_000_000_000, "1e15"
+		if s.onExclude != nil {
+			s.onExclude("KF-C04-percentage-overflow")
+		}
+	}
 	chain := []uint64{1, 1, 2, 3, 7}[w.Src.Int("subchain", 0, 4)]
 	msg := &fsm.MessageSubsidy{Address: cs.Addr(from), ChainId: chain, Amount: amt, Opcode: []byte("x")}
 	return w.Tx(opSubsidy, from, msg, fee, fmt.Sprintf("subsidy %s->pool%d %d(%s)", s.name(cs.Addr(from)), chain, amt, cl), "")
@@ -900,6 +911,7 @@ func TestC04Supply(t *testing.T) {
 			rec.Exclude("KF-C04-mint-overflow")
 		}
 		s, opts := buildWorld(src, c, openOverflow)
+		s.capSubsidy, s.onExclude = ev.Open("KF-C04-percentage-overflow"), rec.Exclude
 		opts.Extra = []cs.ExtraOp{
 			{Kind: opBigSend, Weight: 6, Gen: s.genBigSend},
 			{Kind: opFaucet, Weight: 2, Gen: s.genFaucet},
